@@ -28,6 +28,12 @@ CLAIMS = {
  "C08": dict(text="Structural necessary conditions decided on every path: the handler's reader is InnerElement over the stream-level filter over the locked reader; after the handler every non-error path discards the rest of the element and returns the discard's error; the filter has arms for all six token kinds and errors for PI/comment/directive/non-whitespace top-level text/foreign stream-namespace elements, returns received stream errors as errors, maps the closing tag to io.EOF, counts depth symmetrically; whitespace is ignored; the 'from' normalisation blanks only the compared attribute under its three conditions; the input lock is released on every exit. Level 'other': token-boundary behaviour of xmlstream.InnerElement/encoding/xml is trusted.",
              ref="DESIGN.md section 3, C08", tech="static analysis: parameter provenance in normal form, type-switch exhaustiveness, edge-dominance, must-pass-through, pending-error dataflow",
              note="Trusted: mellium.im/xmlstream.InnerElement/Inner/Copy, encoding/xml tokenisation."),
+ "C06": dict(text="Protocol lints only (structural preconditions of the schedule-quantified property): registration before send and deferred removal under the mutex in sendResp; lock discipline of all waiter tables by must-lockset dataflow; the hand-off select guarded by the table hit, the stanza-name test and the reply types, with an escape arm, followed by an unconditional wait for the caller's Close; every channel operation reachable from the serve loop or a handler has an escape arm or is provably non-blocking; per channel class, send and close share a lock and non-blocking notifies have a buffered channel; blocking helpers select on ctx.Done() and return ctx.Err(); the MUC join hand-off's escape channel is tied to a deferred cancel. Level 'other': exactly-once delivery under all interleavings is NOT decided; what is decided is the lock/guard/escape shape that it needs, for every schedule because it is a property of the code.",
+             ref="DESIGN.md section 3, C06", tech="static analysis: must-lockset dataflow, channel-class analysis (send/close/capacity) over the type-checked AST, edge-dominance, must-pass-through, VTA reachability for the handler scope",
+             note="Trusted: Go channel/select semantics, VTA call graph. 7 open known findings (history/ibb blocking sends, ibb readReady/Listener races, lost wake-up) with reproductions under /verif/findings."),
+ "C09": dict(text="No-panic / no-wedge rules over every repository function reachable (VTA) from the serve loop, handlers, Unmarshal* methods and reply-parsing request helpers (about 290 functions): no bare type assertion, no explicit panic or Must* on non-constant input, Index* sentinels never reach a slice bound, constant slice indices and subtractive make sizes have a dominating length fact, the nil contract of Iter.Current is honoured at every call site, responses are closed at most once, plus the channel rules shared with C06. Level 'other': each rule instance is a necessary condition that holds for every byte sequence a peer can send; panics inside encoding/xml and computed-index bounds beyond the three index rules are not decided.",
+             ref="DESIGN.md section 3, C09", tech="static analysis: VTA call-graph reachability, AST/type rules (assertions, panics, Must*), dominance-based index/sentinel/nil-contract rules, channel-class analysis",
+             note="Trusted: VTA soundness for the entry set, encoding/xml and xmlstream not panicking. Open known findings shared with C06 (channel rules)."),
 }
 
 def main():
